@@ -566,3 +566,73 @@ def render_abs(tree):
            "abbrev hookedTypes : List (String × String × String) := [%s]" % ", ".join('("%s", "%s", "%s")' % h for h in f["hookedTypes"]), "",
            "end JanetModel.Gen.ValueAbs", ""]
     return "\n".join(out)
+
+
+# ------------------------------------------------------------------------------------------------ traversal_next (Gen/ValueTrav.lean)
+def traversal_facts(tree):
+    """structure of value.c traversal_next, locals renamed by role (t = the node pointer read from janet_vm.traversal; self / other
+    = what t->self / t->other are assigned to; ts, ss, to, so = their casts to JanetTupleHead* / JanetStructHead*; x, y = the two
+    out-parameters): the decisions of the tuple branch and of the struct branch in source order, with the status numbers"""
+    value = csrc.strip_comments(csrc.read(tree, "src/core/value.c"))
+    b = csrc.func_body(value, "traversal_next")
+    prm = _func_params(value, "traversal_next")
+    if len(prm) != 2:
+        raise ExtractError("traversal_next: expected 2 parameters")
+    roles = {prm[0]: "x", prm[1]: "y"}
+    m = _need(re.search(r"JanetTraversalNode\s*\*\s*(\w+)\s*=\s*janet_vm\.traversal\s*;", b), "traversal_next: node pointer")
+    t = m.group(1)
+    roles[t] = "t"
+    for fld, role in (("self", "self"), ("other", "other")):
+        m = _need(re.search(r"JanetGCObject\s*\*\s*(\w+)\s*=\s*%s\s*->\s*%s\s*;" % (re.escape(t), fld), b), "traversal_next: t->" + fld)
+        roles[m.group(1)] = role
+    inv = {v: k for k, v in roles.items()}
+    for ty, pre in (("JanetTupleHead", "t"), ("JanetStructHead", "s")):
+        for who in ("self", "other"):
+            m = _need(re.search(r"%s\s*\*\s*(\w+)\s*=\s*\(\s*%s\s*\*\s*\)\s*%s\s*;" % (ty, ty, re.escape(inv[who])), b), "traversal_next: cast of %s to %s" % (who, ty))
+            roles[m.group(1)] = pre + who[0]          # ts, to, ss, so
+    if len(set(roles.values())) != len(roles):
+        raise ExtractError("traversal_next: roles not distinct: %r" % roles)
+    clash = {v: v + "_other" for v in roles.values() if v not in roles and re.search(r"\b%s\b" % v, b)}
+    q = _squash(_rename(_rename(b, clash), roles))
+    f = {}
+    _need(re.search(r"while\(t&&t>janet_vm\.traversal_base\)\{", q), "traversal_next: loop over the stack")
+    _need(re.search(r"if\(\(self->flags&JANET_MEM_TYPEBITS\)==JANET_MEMORY_TUPLE\)\{", q), "traversal_next: tuple / struct discrimination")
+    # tuple branch
+    _need(re.search(r"if\(t->index<ts->length&&t->index<to->length\)\{int32_t(\w+)=t->index\+\+;\*x=ts->data\[\1\];\*y=to->data\[\1\];janet_vm\.traversal=t;return0;\}", q),
+          "traversal_next tuple branch: next element while the index is inside BOTH tuples")
+    m = _need(re.search(r"if\(t->index2&&ts->length!=to->length\)\{?returnts->length>to->length\?(\d+):(\d+);\}?", q),
+              "traversal_next tuple branch: length comparison when index2 is set")
+    f["travTupleLonger"], f["travTupleShorter"] = int(m.group(1)), int(m.group(2))
+    # struct branch
+    _need(re.search(r"if\(t->index2\)\{t->index2=0;int32_t(\w+)=t->index\+\+;\*x=ss->data\[\1\]\.value;\*y=so->data\[\1\]\.value;janet_vm\.traversal=t;return0;\}", q),
+          "traversal_next struct branch: the value of the slot whose key was just compared")
+    _need(re.search(r"for\(int32_t(\w+)=t->index;\1<ss->capacity;\1\+\+\)\{t->index2=1;\*x=ss->data\[t->index\]\.key;\*y=so->data\[t->index\]\.key;janet_vm\.traversal=t;return0;\}", q),
+          "traversal_next struct branch: next key while the index is below SELF's capacity")
+    m = _need(re.search(r"JanetStruct(\w+)=ss->proto;JanetStruct(\w+)=so->proto;if\(\1&&!\2\)return(\d+);if\(!\1&&\2\)return(\d+);"
+                        r"if\((?:\2&&\1|\1&&\2)\)\{\*x=janet_wrap_struct\(\1\);\*y=janet_wrap_struct\(\2\);janet_vm\.traversal=t-1;return0;\}", q),
+              "traversal_next struct branch: prototypes (only self: greater; only other: less; both: compare them, frame popped)")
+    f["travProtoSelfOnly"], f["travProtoOtherOnly"] = int(m.group(3)), int(m.group(4))
+    m = _need(re.search(r"\}t--;\}janet_vm\.traversal=t;return(\d+);\}$", q), "traversal_next: pop and the final status")
+    f["travExhausted"] = int(m.group(1))
+    # how the two callers read the status
+    bc = _squash(csrc.func_body(value, "janet_compare"))
+    m = _need(re.search(r"while\(!\((\w+)=traversal_next\(&x,&y\)\)\);return\1-(\d+);", bc), "janet_compare: `return status - 2`")
+    f["travCompareBias"] = int(m.group(2))
+    be = _squash(csrc.func_body(value, "janet_equals"))
+    _need(re.search(r"while\(!traversal_next\(&x,&y\)\);return1;", be), "janet_equals: `return 1` after the loop")
+    return f
+
+
+def render_trav(tree):
+    f = traversal_facts(tree)
+    out = ["-- GENERATED by /verif/tools/gen from the current janet source tree (src/core/value.c traversal_next, janet_compare, janet_equals).",
+           "-- Regenerated on every check run; do not edit.", "", "namespace JanetModel.Gen.ValueTrav", "",
+           "/-- traversal_next: the statuses it returns.  Tuple frame with index2 set and different lengths: self longer / self shorter;",
+           "    struct frame after the last slot: only self has a prototype / only other has one; stack exhausted; janet_compare returns",
+           "    `status - travCompareBias`.  (That the next element is taken while the index is inside BOTH tuples, the next key while the",
+           "    index is below SELF's capacity, the value right after its key, and that the frame is popped when the prototypes are",
+           "    pushed, are shape assertions of the translator.) -/"]
+    for k in ("travTupleLonger", "travTupleShorter", "travProtoSelfOnly", "travProtoOtherOnly", "travExhausted", "travCompareBias"):
+        out.append("abbrev %s : Nat := %d" % (k, f[k]))
+    out += ["", "end JanetModel.Gen.ValueTrav", ""]
+    return "\n".join(out)
